@@ -42,8 +42,10 @@ CONSTANTS
     MaxMerges,   \* how many merge plans may find work (file merges)
     PauseMode,   \* branch of pausePersisterForMergerCatchUp: "none" | "nap" | "slow"
     HazFD,       \* TRUE: a client holding an open FieldDict may call another index method (hazard, DESIGN lead 3)
-    HazClose2,   \* TRUE: Close may be called more than once (hazard)
-    HazFMMem     \* TRUE: ForceMerge may be called on an engine without a merger loop (hazard)
+    LegacyClose2, \* TRUE: indexImpl.Close as it was before repair fb2d875 (no test of `open`: a second Close
+                  \*       reaches the engine's Close again) - kept as a regression detector, see Proto_hz_close2.cfg
+    LegacyFMMem   \* TRUE: Scorch.ForceMerge as it was before repair 916db13 (no test for a missing merger
+                  \*       loop) - regression detector, see Proto_hz_fmmem.cfg
 
 None == "none"
 
@@ -138,7 +140,8 @@ CanLock     == writer = None /\ Readers = {}
 \* (viol latches a breach); the per-call bookkeeping is then forgotten, which
 \* keeps idle goroutines indistinguishable.
 Ret(c, r, phaseAfter) ==
-    /\ viol' = (viol \/ ~Obs!ResAllowed(op[c], pb[c], phaseAfter, r, cancelled[c]))
+    /\ viol' = (viol \/ ~Obs!ResAllowed(op[c], pb[c], phaseAfter, r, cancelled[c])
+                      \/ ~Obs!CloseOkOnce(op[c], Phase, r))
     /\ pc' = [pc EXCEPT ![c] = "idle"] /\ nops' = [nops EXCEPT ![c] = @ + 1]
     /\ op' = [op EXCEPT ![c] = "none"] /\ pb' = [pb EXCEPT ![c] = 0]
     /\ cancelled' = [cancelled EXCEPT ![c] = FALSE]
@@ -146,8 +149,7 @@ Ret(c, r, phaseAfter) ==
 Begin(c, o) ==
     /\ pc[c] = "idle" /\ o \in Ops
     /\ nops[c] < MaxOps \/ (closeRet /\ nops[c] < MaxOps + LateOps)
-    /\ (o = "close") => (HazClose2 \/ ~closeBegun)
-    /\ (o = "forcemerge") => (HasLoops \/ (Engine = "mem" /\ HazFMMem))
+    /\ (o = "forcemerge") => Scorch          \* reached through Advanced().(*scorch.Scorch)
     /\ op' = [op EXCEPT ![c] = o] /\ pb' = [pb EXCEPT ![c] = Phase]
     /\ pc' = [pc EXCEPT ![c] =
                  CASE o \in LockingOps -> "rl"
@@ -233,11 +235,14 @@ St(c) ==
 (***************************************************************************)
 (* scorch.ForceMerge, reached through Advanced(): NO index lock.           *)
 (***************************************************************************)
+FMReject(c) ==         \* if s.readOnly || s.path == "" { return error }   (no merger loop runs)
+    /\ pc[c] = "fm_check" /\ ~HasLoops /\ ~LegacyFMMem /\ Ret(c, "other", Phase)
+    /\ UNCHANGED <<rd, lvars, clvars, bvars, rvars, ivars, pvars, mvars, fvars>>
 FMCheckBusy(c) ==      \* "force merge already in progress"
-    /\ pc[c] = "fm_check" /\ fmInProg > 0 /\ Ret(c, "other", Phase)
+    /\ pc[c] = "fm_check" /\ (HasLoops \/ LegacyFMMem) /\ fmInProg > 0 /\ Ret(c, "other", Phase)
     /\ UNCHANGED <<rd, lvars, clvars, bvars, rvars, ivars, pvars, mvars, fvars>>
 FMCheckFree(c) ==
-    /\ pc[c] = "fm_check" /\ fmInProg = 0
+    /\ pc[c] = "fm_check" /\ (HasLoops \/ LegacyFMMem) /\ fmInProg = 0
     /\ fmInProg' = 1 /\ pc' = [pc EXCEPT ![c] = "fm_send"]
     /\ UNCHANGED <<op, pb, nops, cancelled, rd, viol, lvars, clvars, bvars, rvars, ivars, pvars, mvars, fmSlot, fmDone>>
 
@@ -267,11 +272,17 @@ ClReq(c) ==      \* Lock() announces itself: from now on new RLock()s block
     /\ pc[c] = "cl_req"
     /\ wpend' = wpend \cup {c} /\ pc' = [pc EXCEPT ![c] = "cl_acq"]
     /\ UNCHANGED <<op, pb, nops, cancelled, rd, viol, writer, open, clvars, bvars, rvars, ivars, pvars, mvars, fvars>>
-ClAcq(c) ==      \* readers drained: write lock held; i.open = false
+ClAcq(c) ==      \* readers drained: write lock held
     /\ pc[c] = "cl_acq" /\ CanLock
-    /\ writer' = c /\ wpend' = wpend \ {c} /\ open' = FALSE
-    /\ pc' = [pc EXCEPT ![c] = "cl_sig"]
+    /\ writer' = c /\ wpend' = wpend \ {c}
+    /\ IF open \/ LegacyClose2
+         THEN open' = FALSE /\ pc' = [pc EXCEPT ![c] = "cl_sig"]        \* i.open = false; i.i.Close()
+         ELSE open' = open /\ pc' = [pc EXCEPT ![c] = "cl_closed"]      \* if !i.open { return ErrorIndexClosed }
     /\ UNCHANGED <<op, pb, nops, cancelled, rd, viol, clvars, bvars, rvars, ivars, pvars, mvars, fvars>>
+ClUnlockClosed(c) ==   \* the deferred Unlock of a Close that found the index already closed
+    /\ pc[c] = "cl_closed"
+    /\ writer' = None /\ Ret(c, "closed", Phase)
+    /\ UNCHANGED <<rd, wpend, open, clvars, bvars, rvars, ivars, pvars, mvars, fvars>>
 ClSignal(c) ==   \* close(s.closeCh) - panics if already closed; upsidedown: store.Close()
     /\ pc[c] = "cl_sig"
     /\ IF Scorch
@@ -559,8 +570,8 @@ CallerStep(c) ==    \* steps of a call in progress (not the decision to call, no
     \/ RLock(c) \/ RUnlockClosed(c) \/ BAppliedSafe(c) \/ BAppliedUnsafe(c) \/ BPersisted(c) \/ BUd(c)
     \/ DcRun(c) \/ CpRun(c) \/ SRunOk(c) \/ SRunCancelled(c) \/ FDClose(c)
     \/ FDNestedRLock(c) \/ FDNestedRUnlock(c) \/ St(c)
-    \/ FMCheckBusy(c) \/ FMCheckFree(c) \/ FMSendReq(c) \/ FMSendClosed(c) \/ FMWaitDone(c) \/ FMWaitClosed(c)
-    \/ ClReq(c) \/ ClAcq(c) \/ ClSignal(c) \/ ClWait(c) \/ ClUnlock(c)
+    \/ FMReject(c) \/ FMCheckBusy(c) \/ FMCheckFree(c) \/ FMSendReq(c) \/ FMSendClosed(c) \/ FMWaitDone(c) \/ FMWaitClosed(c)
+    \/ ClReq(c) \/ ClAcq(c) \/ ClUnlockClosed(c) \/ ClSignal(c) \/ ClWait(c) \/ ClUnlock(c)
 
 ClientChoice(c) == (\E o \in Ops : Begin(c, o)) \/ Cancel(c) \/ FDNestedCall(c)
 
@@ -586,7 +597,7 @@ Slots  == {"empty", "cur", "stale"}
 TypeOK ==
     /\ pc \in [Callers -> {"idle", "rl", "ru_closed", "b_send", "b_applied", "b_pers", "b_ud", "s_run", "dc_run",
                            "cp_run", "fd_held", "fd_held2", "fdn_rl", "fdn_ru", "st", "fm_check", "fm_send",
-                           "fm_wait", "cl_req", "cl_acq", "cl_sig", "cl_wait", "cl_unlock", "panic"}]
+                           "fm_wait", "cl_req", "cl_acq", "cl_closed", "cl_sig", "cl_wait", "cl_unlock", "panic"}]
     /\ op \in [Callers -> Ops \cup {"none"}]
     /\ pb \in [Callers -> 0..2] /\ nops \in [Callers -> 0..(MaxOps + LateOps)]
     /\ cancelled \in [Callers -> BOOLEAN] /\ rd \in [Callers -> 0..2] /\ viol \in BOOLEAN
@@ -618,7 +629,7 @@ ContractHolds == ~viol
 \* Close returns only when the background goroutines are gone and no reader is inside
 CloseReturnMeansStopped == closeRet => LoopsDone
 WriterMeansQuiescent ==
-    \A c \in Callers : pc[c] \in {"cl_sig", "cl_wait", "cl_unlock"} =>
+    \A c \in Callers : pc[c] \in {"cl_closed", "cl_sig", "cl_wait", "cl_unlock"} =>
         \A d \in Callers : pc[d] \notin {"b_send", "b_applied", "b_pers", "b_ud", "s_run", "dc_run", "cp_run",
                                          "fd_held", "fd_held2", "fdn_ru", "ru_closed"}
 
